@@ -47,6 +47,7 @@ func vfcfbULID(rng *rand.Rand, ms uint64) ulid.ULID {
 
 type vfcfbOp struct {
 	applyThenFail bool
+	bodyCut       int
 	Seq           int    `json:"seq"`
 	View          string `json:"view"`
 	Kind          string `json:"kind"` // upload delete get getrange exists attributes iter
@@ -84,18 +85,22 @@ func vfcfbClassOf(kind, name string) string {
 type vfcfbCore struct {
 	mem *objstore.InMemBucket
 
-	mu          sync.Mutex
-	seq         int
-	mutSeq      int
-	readSeq     int // reads of fault views only
-	log         []vfcfbOp
-	keepLog     bool
-	failStopMut int // fail-stop when the failStopMut-th mutating op is attempted (0 = never)
-	stopped     bool
-	onStop      func()
-	failReadSeq int // the failReadSeq-th read of a fault view fails once (0 = never)
-	failReadErr error
-	failedRead  *vfcfbOp
+	mu            sync.Mutex
+	seq           int
+	mutSeq        int
+	readSeq       int // reads of fault views only
+	log           []vfcfbOp
+	keepLog       bool
+	failStopMut   int // fail-stop when the failStopMut-th mutating op is attempted (0 = never)
+	stopped       bool
+	onStop        func()
+	failReadSeq   int // the failReadSeq-th read of a fault view fails once (0 = never)
+	failReadErr   error
+	failedRead    *vfcfbOp
+	failReadBody  int              // 0: the armed read fails as a call; 1,2,3: a "get" succeeds but its reader fails after 0 / half / len-1 bytes
+	attrIterFault map[string]int   // IterWithAttributes of this directory fails after yielding n entries (plain Iter, Get, Delete keep working)
+	beforeOp      func(op vfcfbOp) // hook run (outside the lock) before operation number beforeOpSeq is executed
+	beforeOpSeq   int
 	// transient faults (one operation fails once, every later operation works):
 	transMut       int    // the transMut-th mutating operation ...
 	transMutMode   string // ... "lost": is not applied and fails; "applied": is applied but reported as failed
@@ -126,6 +131,7 @@ func (c *vfcfbCore) reset() {
 	c.failStopMut, c.stopped, c.onStop = 0, false, nil
 	c.failReadSeq, c.failReadErr, c.failedRead = 0, nil, nil
 	c.transMut, c.transMutMode, c.transOtherRead, c.otherReadSeq, c.transHit = 0, "", 0, 0, nil
+	c.failReadBody, c.beforeOp, c.beforeOpSeq = 0, nil, 0
 }
 
 // armTransient arms one transient fault: mutating operation number mut ("lost" / "applied") or read number otherRead of the non-fault views.
@@ -151,7 +157,31 @@ func (c *vfcfbCore) otherReads() int {
 // left goroutines behind that still use the bucket).
 func (c *vfcfbCore) armReadFault(n int, err error) {
 	c.mu.Lock()
-	c.failReadSeq, c.failReadErr = n, err
+	c.failReadSeq, c.failReadErr, c.failReadBody, c.failedRead = n, err, 0, nil
+	c.mu.Unlock()
+}
+
+// armReadBodyFault: the n-th read of the fault views, if it is a get, succeeds as a call but its reader fails after
+// 0 (cut=1), half (cut=2) or all but one (cut=3) bytes; a read that returns no reader is left alone.
+func (c *vfcfbCore) armReadBodyFault(n, cut int) {
+	c.mu.Lock()
+	c.failReadSeq, c.failReadErr, c.failReadBody, c.failedRead = n, nil, cut, nil
+	c.mu.Unlock()
+}
+
+// armReadFaultRelative arms a fault at the n-th read of the fault views counted from now.
+func (c *vfcfbCore) armReadFaultRelative(n int, err error, cut int) {
+	c.mu.Lock()
+	c.failReadSeq, c.failReadErr, c.failReadBody, c.failedRead = c.readSeq+n, err, cut, nil
+	c.mu.Unlock()
+}
+
+func (c *vfcfbCore) setAttrIterFault(dir string, afterEntries int) {
+	c.mu.Lock()
+	if c.attrIterFault == nil {
+		c.attrIterFault = map[string]int{}
+	}
+	c.attrIterFault[dir] = afterEntries
 	c.mu.Unlock()
 }
 
@@ -222,9 +252,15 @@ func (c *vfcfbCore) begin(v *vfcfbView, kind, name string, mutating bool) (vfcfb
 		c.readSeq++
 		op.ReadSeq = c.readSeq
 		if c.failReadSeq > 0 && c.readSeq == c.failReadSeq {
-			err = c.failReadErr
-			if err == nil {
-				err = vfcfbErrTransient
+			if c.failReadBody > 0 {
+				if kind == "get" {
+					op.bodyCut = c.failReadBody
+				}
+			} else {
+				err = c.failReadErr
+				if err == nil {
+					err = vfcfbErrTransient
+				}
 			}
 		}
 	}
@@ -236,9 +272,16 @@ func (c *vfcfbCore) begin(v *vfcfbView, kind, name string, mutating bool) (vfcfb
 	if c.keepLog {
 		c.log = append(c.log, op)
 	}
+	var hook func(vfcfbOp)
+	if c.beforeOp != nil && c.beforeOpSeq == c.seq {
+		hook = c.beforeOp
+	}
 	c.mu.Unlock()
 	if stopNow != nil {
 		stopNow()
+	}
+	if hook != nil {
+		hook(op)
 	}
 	return op, err
 }
@@ -337,7 +380,15 @@ func (v *vfcfbView) IterWithAttributes(ctx context.Context, dir string, f func(o
 	if err := ctx.Err(); err != nil {
 		return err
 	}
-	return v.core.mem.IterWithAttributes(ctx, dir, func(a objstore.IterObjectAttributes) error {
+	v.core.mu.Lock()
+	failAfter, faulty := v.core.attrIterFault[dir]
+	v.core.mu.Unlock()
+	yielded := 0
+	err := v.core.mem.IterWithAttributes(ctx, dir, func(a objstore.IterObjectAttributes) error {
+		if faulty && yielded >= failAfter {
+			return vfcfbErrTransient
+		}
+		yielded++
 		v.core.mu.Lock()
 		lm, ok := v.core.lastMod[a.Name]
 		none := v.core.noLastMod
@@ -351,17 +402,66 @@ func (v *vfcfbView) IterWithAttributes(ctx context.Context, dir string, f func(o
 		}
 		return f(a)
 	}, options...)
+	if err == nil && faulty {
+		return vfcfbErrTransient // the listing breaks at its end
+	}
+	return err
 }
 
 func (v *vfcfbView) Get(ctx context.Context, name string) (io.ReadCloser, error) {
-	if _, err := v.core.begin(v, "get", name, false); err != nil {
+	op, err := v.core.begin(v, "get", name, false)
+	if err != nil {
 		return nil, err
 	}
 	if err := ctx.Err(); err != nil {
 		return nil, err
 	}
-	return v.core.mem.Get(ctx, name)
+	rc, err := v.core.mem.Get(ctx, name)
+	if err != nil || op.bodyCut == 0 {
+		return rc, err
+	}
+	body, rerr := io.ReadAll(rc)
+	_ = rc.Close()
+	if rerr != nil {
+		return nil, rerr
+	}
+	n := 0
+	switch op.bodyCut {
+	case 2:
+		n = len(body) / 2
+	case 3:
+		n = len(body) - 1
+	}
+	if n < 0 {
+		n = 0
+	}
+	// the fault is injected only now: the object exists and a reader is handed out
+	v.core.mu.Lock()
+	if v.core.failedRead == nil {
+		cp := op
+		cp.Failed = true
+		v.core.failedRead = &cp
+	}
+	v.core.mu.Unlock()
+	return &vfcfbCutReader{data: body[:n]}, nil
 }
+
+// vfcfbCutReader yields a prefix of an object and then a transient error (a connection that breaks mid-stream).
+type vfcfbCutReader struct {
+	data []byte
+	off  int
+}
+
+func (r *vfcfbCutReader) Read(p []byte) (int, error) {
+	if r.off >= len(r.data) {
+		return 0, vfcfbErrTransient
+	}
+	n := copy(p, r.data[r.off:])
+	r.off += n
+	return n, nil
+}
+
+func (r *vfcfbCutReader) Close() error { return nil }
 
 func (v *vfcfbView) GetRange(ctx context.Context, name string, off, length int64) (io.ReadCloser, error) {
 	if _, err := v.core.begin(v, "getrange", name, false); err != nil {
